@@ -23,6 +23,7 @@ func runC12(w *World, r *Report, tier string) {
 	r.Rule("R1", "every exit of Client.recv other than the graceful stream-close exit passes exactly one ErrorHandler call and exactly one disconnected(Session.SMState) call")
 	r.Rule("R2", "recv defers close(keepaliveQuit) in its entry block; at every start site keepalive and recv get the same channel")
 	r.Rule("R3", "keepalive: the quit case stops the ticker and returns with no Ping reachable; a failed Ping stops the ticker, closes the transport and returns")
+	r.Rule("R5", "event delivery: EventManager.disconnected/updateState/streamError record the state and, when a handler is installed, call it exactly once on every path with an Event carrying the current state (and, for disconnected, the SM state given); SetHandler installs the handler it is given")
 	r.Rule("R4", "goroutine inventory: every go statement in library code starts one of the session goroutines whose end R1–R3 establish, or a function with no loop / whose every loop passes through a fallible call and leaves when it fails; every blocking channel operation inside library goroutines has a terminating alternative (buffered channel, select with a done/timeout case)")
 
 	fn := w.Func("xmpp.(*Client).recv")
@@ -63,6 +64,16 @@ func runC12(w *World, r *Report, tier string) {
 				bad = fmt.Sprintf("exit at %s passes %d error callback(s) and %d Disconnected event(s); exactly one of each is required", w.ipos(last), neh, nd)
 				return
 			}
+			forPath(path, func(pi int, in ssa.Instruction) {
+				// what is reported is an error this path has found to be non-nil (the failed read, the failed answer)
+				if isEH(in) {
+					args := asCall(in).Common().Args
+					ev := resolveOn(args[len(args)-1], pi, path)
+					if !pathAsserts(path, func(c ssa.Value, truth bool) bool { return assertsNonNil(c, truth, ev) }) {
+						bad = "the loss is reported at " + w.ipos(in) + " with an error that was not found non-nil on this path: the report and the failure are decoupled (a successful operation ends the session, a failed one goes unnoticed)"
+					}
+				}
+			})
 			for _, in := range path {
 				if isDisc(in) && !discArgOK(in) {
 					bad = "the Disconnected event at " + w.ipos(in) + " does not carry the session's stream-management state"
@@ -197,6 +208,8 @@ func runC12(w *World, r *Report, tier string) {
 
 	// R3 keepalive
 	c12Keepalive(w, r, "R3")
+	// R5 event delivery
+	c12Events(w, r)
 
 	// R4 goroutine inventory
 	c12Goroutines(w, r)
@@ -573,4 +586,114 @@ func goroutineRole(w *World, fn *ssa.Function) string {
 		return "context-watcher"
 	}
 	return "function:" + w.funcKey(fn)
+}
+
+// c12Events (R5): the functions through which the loss (and every other state change) reaches the application.
+func c12Events(w *World, r *Report) {
+	fHandler := w.Field("xmpp.EventManager.Handler")
+	isSetState := w.isCallTo("xmpp.SyncConnState.setState")
+	isHandlerCall := func(in ssa.Instruction) bool { return isDynCallOfField(in, fHandler) }
+	want := map[string]string{"disconnected": "StateDisconnected", "updateState": "", "streamError": "StateStreamError"}
+	for _, name := range []string{"disconnected", "updateState", "streamError"} {
+		fn := w.Func("xmpp.(*EventManager)." + name)
+		cons := "xmpp.(*EventManager)." + name
+		bad := ""
+		n, nCalled := 0, 0
+		err := walkPaths(entryLoc(fn), nil, nil, 2000, func(path []ssa.Instruction, end pathEnd) {
+			if _, ok := path[len(path)-1].(*ssa.Return); !ok {
+				bad = "a path does not return"
+				return
+			}
+			n++
+			if countOn(path, isSetState) != 1 {
+				bad = fmt.Sprintf("the state is recorded %d time(s)", countOn(path, isSetState))
+			}
+			forPath(path, func(i int, in ssa.Instruction) {
+				if !isSetState(in) {
+					return
+				}
+				a := asCall(in).Common().Args[1]
+				if want[name] == "" {
+					if a != ssa.Value(fn.Params[1]) {
+						bad = "the state recorded is not the one given"
+					}
+				} else if k, ok := intConst(a); !ok || func() bool { v, _ := intConstOf(w.Pkgs["xmpp"].Types.Scope().Lookup(want[name])); return v != k }() {
+					bad = "the state recorded is not " + want[name]
+				}
+			})
+			installed := pathAsserts(path, func(c ssa.Value, truth bool) bool {
+				x, eq, ok := nilCompare(c)
+				if !ok {
+					return false
+				}
+				f, _ := loadedField(x)
+				return f == fHandler && eq != truth
+			})
+			nh := countOn(path, isHandlerCall)
+			if installed {
+				nCalled++
+				if nh != 1 {
+					bad = fmt.Sprintf("with a handler installed it is called %d time(s)", nh)
+				}
+				if indexOn(path, isHandlerCall) < indexOn(path, isSetState) {
+					bad = "the handler is called before the state is recorded"
+				}
+				forPath(path, func(i int, in ssa.Instruction) {
+					if !isHandlerCall(in) {
+						return
+					}
+					if _, isCall := in.(*ssa.Call); !isCall {
+						bad = "the handler is not called synchronously"
+					}
+					fields, al := complitFields(asCall(in).Common().Args[0])
+					if al == nil {
+						bad = "the event handed to the handler is not built here"
+						return
+					}
+					if st, ok := fields["State"]; !ok || !strings.HasSuffix(w.nf(st, 0), ".CurrentState") {
+						bad = "the event does not carry the current state"
+					}
+					if name == "disconnected" {
+						if sm, ok := fields["SMState"]; !ok || origin(sm) != ssa.Value(fn.Params[1]) {
+							if u, isLoad := sm.(*ssa.UnOp); !ok || !isLoad || !func() bool {
+								// a struct parameter is spilled to a local before being copied into the literal
+								al2, isAl := u.X.(*ssa.Alloc)
+								if !isAl {
+									return false
+								}
+								for _, rf := range *al2.Referrers() {
+									if s2, isSt := rf.(*ssa.Store); isSt && s2.Addr == ssa.Value(al2) && s2.Val == ssa.Value(fn.Params[1]) {
+										return true
+									}
+								}
+								return false
+							}() {
+								bad = "the Disconnected event does not carry the stream-management state it was given"
+							}
+						}
+					}
+				})
+			} else if nh != 0 {
+				bad = "the handler is called without having been tested for nil"
+			}
+		})
+		if err != nil {
+			r.Undecided("R5", cons, w.pos(fn.Pos()), err.Error())
+			continue
+		}
+		r.Check(bad == "" && n > 0 && nCalled > 0, "R5", cons, w.pos(fn.Pos()), bad+": the application (and a StreamManager) never learns about the state change", fmt.Sprintf("%d path(s): state recorded, handler called once with the event", n))
+	}
+	for _, k := range []string{"xmpp.(*Client).SetHandler", "xmpp.(*Component).SetHandler"} {
+		fn := w.Func(k)
+		okSt := false
+		allInstrsH(fn, func(in ssa.Instruction) {
+			if st, ok := in.(*ssa.Store); ok {
+				if fa, ok := st.Addr.(*ssa.FieldAddr); ok && fieldOfAddr(fa) == fHandler && origin(st.Val) == ssa.Value(fn.Params[1]) {
+					okSt = true
+				}
+			}
+		})
+		r.Check(okSt, "R5", k, w.pos(fn.Pos()), "SetHandler does not install the handler it is given: events go to the old handler or nowhere, a StreamManager is never told about a loss", "Handler = handler")
+	}
+	r.Floor("R5", 5)
 }
